@@ -15,6 +15,37 @@ def fuzz(target, seconds, **kw):
 
 
 PROPS = {
+    "C01": {
+        "rule": "cases: 0-25 generated records (plain / JSON / logfmt / delimiter-separated lines built from known structure, typed "
+                "label and field pools, ties) x a generated log query (0-3 selector matchers with all four operators, up to 6 stages: "
+                "line filters incl. ip(), label predicates of all five types combined with and/or/,/juxtaposition/parentheses, json/"
+                "logfmt/regexp/pattern parser stages, distinct, and occasionally rewriting stages) printed with generated layout, x "
+                "one of the 256 storage capability subsets; each case is evaluated under the drawn capabilities and under none "
+                "(evaluations counts both); oracle: reference model => multiset of (timestamp, line, labels), both runs must equal "
+                "it and each other; non-trivial = 0 < |result| < |records|, or >=2 stages with at least one condition actually "
+                "offloaded; distinct by case hash",
+        "assumptions": [
+            "mixed and/or predicates are always parenthesised; juxtaposition is only generated in front of an identifier",
+            "!= ip() line filters only over lines with exactly one address; addresses are delimited by characters outside [0-9a-fA-F:.]",
+            "the texts of __error__ / __error_details__ are not specified, only their presence",
+            "a line filter starting with != or !~ is not generated directly after 'drop a' / 'keep a' (grammar ambiguity)",
+            "JSON documents have unique keys, int64-range integers and finite floats; noise lines are not JSON from their first byte",
+            "the mock storage applies offloaded matchers with the reference semantics (storage contract)",
+        ],
+        "quick": [rapid("TestC01", 1500)],
+        "thorough": [rapid("TestC01", 6000, shards=16, timeout=2400)],
+    },
+    "C08": {
+        "rule": "cases: C01's generator with rewriting stages enabled, label values that differ only in quoting-sensitive characters "
+                "(quote, backslash, comma, equals, newline), frequent '| drop msg' / '| keep x' endings so that records share final "
+                "label sets, and a limit from {-5,-1,0,1,N/2,N-1,N,N+1,2N} where N is the model's number of matches; invariants + "
+                "model: unique stream label sets, entries in the stream of exactly their labels, per-stream time order, count = "
+                "min(L,N) (all N for L<=0), returned set is a time-prefix of the matches; non-trivial = >=2 streams and 0<L<N, or "
+                ">=2 streams with a quoting-sensitive label value; distinct by case hash",
+        "assumptions": ["records are handed to the engine in time order (storage contract)", "see C01 for the query generator's preconditions"],
+        "quick": [rapid("TestC08", 1500)],
+        "thorough": [rapid("TestC08", 6000, shards=16, timeout=2400)],
+    },
     "C16": {
         "rule": "cases: a generated clock and all 16 present/absent combinations of --start --end --since --step; instants "
                 "2001-2200 at s/ms/ns granularity spelled as unix seconds, unix nanoseconds, fractional seconds (1-3 decimals) or "
